@@ -40,7 +40,8 @@ pub const QVAR: usize = 10;
 
 /// JubJub twisted Edwards d = -(10240/10241), stated independently.
 pub fn edwards_d() -> Fe {
-    -(fe(10240) * inv(fe(10241)))
+    static D: std::sync::OnceLock<Fe> = std::sync::OnceLock::new();
+    *D.get_or_init(|| -(fe(10240) * inv(fe(10241))))
 }
 
 fn delta(f: Fe) -> Fe {
@@ -82,7 +83,6 @@ pub fn row_components(q: &[Fe; 11], pi: Fe, cur: &[Fe; 4], next: &[Fe; 4]) -> [F
     let (a, b, c, d) = (cur[0], cur[1], cur[2], cur[3]);
     let (an, bn, dn) = (next[0], next[1], next[3]);
     let mut r = [zero(); N_COMPONENTS];
-    let dd = edwards_d();
 
     // arithmetic + PI (PI counts even when q_arith = 0)
     r[0] = q[QARITH] * (q[QM] * a * b + q[QL] * a + q[QR] * b + q[QO] * c + q[QF] * d + q[QC]) + pi;
@@ -118,6 +118,7 @@ pub fn row_components(q: &[Fe; 11], pi: Fe, cur: &[Fe; 4], next: &[Fe; 4]) -> [F
 
     // fixed base
     if q[QFIXED] != zero() {
+        let dd = edwards_d();
         let bit = dn - d - d;
         let x_beta = q[QL];
         let y_beta = q[QR];
@@ -132,6 +133,7 @@ pub fn row_components(q: &[Fe; 11], pi: Fe, cur: &[Fe; 4], next: &[Fe; 4]) -> [F
 
     // variable base
     if q[QVAR] != zero() {
+        let dd = edwards_d();
         let (x1, y1, x2, y2) = (a, b, c, d);
         let (x3, y3, x1y2) = (an, bn, dn);
         r[14] = q[QVAR] * (x1 * y2 - x1y2);
